@@ -14,13 +14,13 @@
    stdout, per case:
      == <id>
      RES <outcome of every call in the repaired model: ok | ex<code> | oob | uninit | fuel>
-     POLY <fixed 0|1> <n> { <re> <im> <len> { <dag 1|0> <index> } }      the model's IndexHamiltonian polynomial, map order
-        (or  POLY <fixed> FAIL <outcome>)
+     POLY <fixed 0|1><mag_half 0|1> <n> { <re> <im> <len> { <dag 1|0> <index> } }    the model's IndexHamiltonian polynomial in map
+        order, for the four model variants (or  POLY <variant> FAIL <outcome>)
      SPEC <number of entries where H differs from the documented operator> { <r> <c> <H re> <H im> <spec re> <spec im> } (first 6)
      HERM <number of entries with H[r][c] <> conj H[c][r]> { <r> <c> } (first 6)
      SU2 <+|-> <number of non-zero entries of [H, S^+-_tot]> { <r> <c> <re> <im> } (first 3)        only when su2 = 1
-     MODELSPEC <fixed 0|1> <number of entries where the matrix of the MODEL's polynomial differs from the documented operator>
-                                      printed only when the two model variants differ from each other
+     MODELSPEC <number of entries where the matrix of the fully repaired MODEL's polynomial (variant 11) differs from the
+                                      documented operator>          printed only when SPEC is not 0
      SPECSYM <0|1>                    whether the documented operator itself is Hermitian (diagnostic)
    All comparisons are exact (extracted Qeq_bool on reduced fractions).  The glue below only parses, calls the extracted
    functions, multiplies dense arrays with the extracted ring operations, and prints. *)
@@ -85,15 +85,15 @@ let string_of_outcome = function
   | Done _ -> "ok" | Throws c -> Printf.sprintf "ex%d" c | OOB -> "oob" | Uninit -> "uninit" | OutOfFuel -> "fuel"
 
 (* a polynomial in HPOLY layout; Fock.op = (is_annihilation, index) *)
-let print_poly fixed to_c (r : (op0 list * 'k) list outcome) =
+let print_poly tag to_c (r : (op0 list * 'k) list outcome) =
   match r with
   | Done p ->
-    Printf.printf "POLY %d %d" fixed (List.length p);
+    Printf.printf "POLY %s %d" tag (List.length p);
     List.iter (fun (m, c) ->
         Printf.printf " %s %d" (string_of_c (to_c c)) (List.length m);
         List.iter (fun (ann, ix) -> Printf.printf " %d %d" (if ann then 0 else 1) ix) m) p;
     print_newline ()
-  | o -> Printf.printf "POLY %d FAIL %s\n" fixed (string_of_outcome o)
+  | o -> Printf.printf "POLY %s FAIL %s\n" tag (string_of_outcome o)
 
 let to_array to_c (l : 'k list list) : qC array array = Array.of_list (List.map (fun r -> Array.of_list (List.map to_c r)) l)
 
@@ -127,30 +127,27 @@ let finish (cs : case) =
   let dim = 1 lsl m in
   if Array.length cs.h <> dim then Printf.printf "BAD matrix dimension %d for %d modes\n" (Array.length cs.h) m
   else begin
-    let spec, splus, sminus, mtabs =
+    let variants = [ ("00", false, false); ("10", true, false); ("01", false, true); ("11", true, true) ] in
+    let spec, splus, sminus, repaired_table =
       if cs.cplx then begin
         let hist : cop list = List.map (op_of_tokens c_of_string) lines in
         Printf.printf "RES %s\n" (String.concat " " (List.map string_of_outcome (c_model_results repaired hist)));
-        let p0 = c_model_poly tb m repaired false hist and p1 = c_model_poly tb m repaired true hist in
-        print_poly 0 (fun c -> c) p0;
-        print_poly 1 (fun c -> c) p1;
+        let poly f g = c_model_poly tb m repaired f g hist in
+        List.iter (fun (tag, f, g) -> print_poly tag (fun c -> c) (poly f g)) variants;
         let id c = c in
-        let tab = function Done p -> Some (to_array id (c_poly_table m p)) | _ -> None in
         (to_array id (c_spec_table tb m hist),
          (if cs.su2 then to_array id (c_splus_table tb m repaired hist) else [||]),
          (if cs.su2 then to_array id (c_sminus_table tb m repaired hist) else [||]),
-         (if p0 <> p1 then [ (0, tab p0); (1, tab p1) ] else []))
+         (fun () -> match poly true true with Done p -> Some (to_array id (c_poly_table m p)) | _ -> None))
       end else begin
         let hist : qop list = List.map (op_of_tokens q_of_string) lines in
         Printf.printf "RES %s\n" (String.concat " " (List.map string_of_outcome (q_model_results repaired hist)));
-        let p0 = q_model_poly tb m repaired false hist and p1 = q_model_poly tb m repaired true hist in
-        print_poly 0 c_of_q p0;
-        print_poly 1 c_of_q p1;
-        let tab = function Done p -> Some (to_array c_of_q (q_poly_table m p)) | _ -> None in
+        let poly f g = q_model_poly tb m repaired f g hist in
+        List.iter (fun (tag, f, g) -> print_poly tag c_of_q (poly f g)) variants;
         (to_array c_of_q (q_spec_table tb m hist),
          (if cs.su2 then to_array c_of_q (q_splus_table tb m repaired hist) else [||]),
          (if cs.su2 then to_array c_of_q (q_sminus_table tb m repaired hist) else [||]),
-         (if p0 <> p1 then [ (0, tab p0); (1, tab p1) ] else []))
+         (fun () -> match poly true true with Done p -> Some (to_array c_of_q (q_poly_table m p)) | _ -> None))
       end in
     (* (b) documented operator *)
     let nb = ref 0 and fb = Buffer.create 128 in
@@ -160,13 +157,15 @@ let finish (cs : case) =
           if !nb <= 6 then Buffer.add_string fb (Printf.sprintf " %d %d %s %s" r c (string_of_c cs.h.(r).(c)) (string_of_c spec.(r).(c))) end
       done done;
     Printf.printf "SPEC %d%s\n" !nb (Buffer.contents fb);
-    (* the model variants judged by the same clause (only when they differ from each other) *)
-    List.iter (fun (k, t) -> match t with
-        | None -> Printf.printf "MODELSPEC %d -1\n" k
-        | Some a ->
-          let n = ref 0 in
-          for r = 0 to dim - 1 do for c = 0 to dim - 1 do if not (ceqb a.(r).(c) spec.(r).(c)) then incr n done done;
-          Printf.printf "MODELSPEC %d %d\n" k !n) mtabs;
+    (* the fully repaired model judged by the same clause *)
+    if !nb <> 0 then begin
+      match repaired_table () with
+      | None -> print_string "MODELSPEC -1\n"
+      | Some a ->
+        let n = ref 0 in
+        for r = 0 to dim - 1 do for c = 0 to dim - 1 do if not (ceqb a.(r).(c) spec.(r).(c)) then incr n done done;
+        Printf.printf "MODELSPEC %d\n" !n
+    end;
     (* (c) Hermiticity of the implementation's matrix *)
     let nh = ref 0 and fh = Buffer.create 64 and specsym = ref true in
     for r = 0 to dim - 1 do for c = 0 to dim - 1 do
